@@ -295,6 +295,31 @@ static inline void hq_unlock_hook(Mutex *m)
   __CPROVER_ensures(__CPROVER_return_value == (__CPROVER_old(self->queueList.len) > 0)) \
   __CPROVER_ensures(__CPROVER_old(self->queueList.w) == 0 ==> (DONE_M && self->freeList.w >= 0))
 
+/* ------------------------------------------------------------------ C07 / C11: emptiness and the waiters' predicate, as for EventQueue: an event that a processing call has
+ * swapped out and not finished (queueEmptyCounter > 0) counts as pending for emptyQueue, wait and waitFor alike */
+#define HQ_EMPTY(q) ((q)->queueList.len == 0 && (q)->queueEmptyCounter == 0)
+#define HQ_CANPROC(q) (!HQ_EMPTY(q) && (q)->queueNotifyCounter == 0)
+#define CONTRACT_HQ_doEmptyQueue \
+  __CPROVER_requires(HQ_FRESH(self)) \
+  __CPROVER_assigns() \
+  __CPROVER_ensures(__CPROVER_return_value == HQ_EMPTY(self))
+#define CONTRACT_HQ_emptyQueue \
+  __CPROVER_requires(HQ_FRESH(self) && NOLOCKS(self)) \
+  __CPROVER_assigns(self->queueListMutex.depth) \
+  __CPROVER_ensures(NOLOCKS(self) && __CPROVER_return_value == HQ_EMPTY(self))
+#define CONTRACT_HQ_doCanProcess \
+  __CPROVER_requires(HQ_FRESH(self)) \
+  __CPROVER_assigns() \
+  __CPROVER_ensures(__CPROVER_return_value == HQ_CANPROC(self))
+#define CONTRACT_HQ_wait \
+  __CPROVER_requires(HQ_FRESH(self) && NOLOCKS(self)) \
+  __CPROVER_assigns(self->queueListMutex.depth) \
+  __CPROVER_ensures(NOLOCKS(self) && HQ_CANPROC(self))
+#define CONTRACT_HQ_waitFor__long_std_ratio_1_1000 \
+  __CPROVER_requires(HQ_FRESH(self) && __CPROVER_is_fresh(duration, sizeof(Duration)) && NOLOCKS(self)) \
+  __CPROVER_assigns(self->queueListMutex.depth) \
+  __CPROVER_ensures(NOLOCKS(self) && __CPROVER_return_value == HQ_CANPROC(self))
+
 /* ------------------------------------------------------------------ enqueue: the item is stored under the prototype selected for the argument types (compile-time
  * selection: lemma_heter_selection), with the dispatcher of that prototype, the event the policy yields and the caller's
  * argument values; it becomes the last queued event; events already queued keep their place */
